@@ -457,12 +457,13 @@ func VH_C06_RowToRuns() {
 		case c == 0x0a:
 			open = false
 		case c <= 0x07:
-			if c != colour {
-				if open {
-					flush()
-				}
-				colour = c
+			// a colour code repeating the current colour is outside the claim: the format gives it no meaning and the
+			// implementation ends the run or not depending on the size state (six cells are enough to see both)
+			vassume(c != colour)
+			if open {
+				flush()
 			}
+			colour = c
 		case c >= 0x0c && c <= 0x0f:
 			if open {
 				flush()
